@@ -23,11 +23,15 @@ EXPLANATION = (
     "generated in that very call (no cached ephemerals, hence unrelated session keys per circuit); every iteration of the hop loop of "
     "encrypt_cell / decrypt_cell applies its primitive or raises (no break / continue / return skips a layer); the crypto endpoint wraps the "
     "community's whole endpoint (self.endpoint) and replaces the community as its listener, so no cell reaches the handlers unauthenticated; "
-    "containers changed through self.<attr> are bound per instance, not once at class level (per-circuit state is not shared). Steps are recognised by what "
+    "containers changed through self.<attr> are bound per instance, not once at class level (per-circuit state is not shared); the session keys "
+    "are expanded from the whole handshake secret (never a slice of it) and the responder's secret contains a Diffie-Hellman result computed with a key "
+    "that outlives the call (its identity key), so only the hop the originator selected can remove that hop's layer. Steps are recognised by what "
     "they compute: callables picked from dispatch tables / conditional expressions, layer plans (generators, returned or locally "
     "built lists walked by one loop, elements given as tuples or NamedTuple / dataclass records), functools.partial of the methods, methods named "
     "by strings for getattr, decisions returned as tags / flags / Enum members / record fields by helpers, guards spelled as any()/loops/de Morgan/"
-    "operator-module functions/membership in chain() or key unions/except KeyError, guards moved to the callers. "
+    "operator-module functions/membership in chain() or key unions/except KeyError, guards moved to the callers or into the wrapper of a new private "
+    "decorator, read-only tables / frozensets at module level, hop loops written as `while` with an explicit index (checked on exact polynomials) or moved "
+    "into a new function of another module (the thin method is checked to hand every non-plaintext cell over), generators feeding the send loop. "
     "Byte equality / ciphertext distinctness / tamper rejection rest on the AEAD (trusted)."
 )
 
@@ -87,9 +91,16 @@ def _bindings(fi: FuncInfo, name: str) -> int:
 
 def _is_new(fi: FuncInfo) -> bool:
     """fi is not a function of the reviewed tree (sa/tables/local_names.json): a helper introduced by a later change."""
+    import os
     from ..localnames import load_table
     t = load_table().get(fi.module.relpath)
-    return t is not None and fi.qualname not in t
+    if t is None:
+        # no function of this file is in the reviewed table: either the reviewed file defines none, or the file itself is new (a
+        # helper moved to a new private module) - the reviewed tree on disk tells which
+        ctx = _CURRENT[0]
+        root = getattr(ctx.repo, "root", "/repo") if ctx is not None else "/repo"
+        return fi.module.relpath.startswith("ipv8/") and not os.path.exists(os.path.join(root, fi.module.relpath))
+    return fi.qualname not in t
 
 
 def _subst_name(e: ast.AST, name: str, value: ast.AST) -> ast.AST:
@@ -105,6 +116,12 @@ def _literal_elts(fi: FuncInfo | None, it: ast.AST):
     it = strip_cast(it)
     if isinstance(it, ast.Name) and fi is not None and _bindings(fi, it.id) == 1:
         it = resolve(fi, it)
+    if isinstance(it, (ast.Name, ast.Attribute)) and fi is not None and _CURRENT[0] is not None:
+        # a read-only table at module / class level (`_TABLES = ("circuits", ...)`, possibly wrapped in tuple()/frozenset())
+        nm = it.id if isinstance(it, ast.Name) else it.attr
+        v = _shared_const(_CURRENT[0], fi, it)
+        if v is not None and v is not it and _never_mutated(_CURRENT[0], nm):
+            it = strip_cast(v)
     if isinstance(it, (ast.Tuple, ast.List, ast.Set)) and not any(isinstance(x, ast.Starred) for x in it.elts):
         return list(it.elts)
     return None
@@ -710,6 +727,14 @@ def _method_target(ctx: Ctx, fi: FuncInfo, call: ast.Call) -> FuncInfo | None:
         if isinstance(t, FuncInfo) and t.cls is None and not t.node.decorator_list and _is_new(t):
             return t
         return None
+    if isinstance(f, ast.Attribute) and isinstance(f.value, ast.Name) and f.value.id in fi.module.imports \
+            and not is_param(fi, f.value.id) and not local_defs(fi, f.value.id):
+        r_ = ctx.repo.resolve_name(fi.module, f.value.id)        # `<imported module>.<function>(...)`
+        if isinstance(r_, tuple) and r_[0] == "module" and r_[1] is not None:
+            t = r_[1].functions.get(f.attr)
+            if isinstance(t, FuncInfo) and not t.node.decorator_list and _is_new(t):
+                return t
+            return None
     if not (isinstance(f, ast.Attribute) and fi.cls is not None):
         return None
     r = f.value
@@ -906,6 +931,63 @@ def _cond_call(ctx: Ctx, fi: FuncInfo, n) -> ast.Call | None:
     return a if isinstance(a, ast.Call) else None
 
 
+def _decorator_wrappers(ctx: Ctx, fi: FuncInfo) -> list:
+    """[(wrapper function, its call of the decorated body, {parameter of fi: argument in the wrapper's terms})] for the NEW private
+    decorators of fi (`@d` / `@d(args)`, d a module-level function of a later change): a function decorated this way denotes the
+    wrapper the decorator returns, and the one call `func(self, ...)` inside the wrapper stands for the body of fi.  Decorators of
+    the reviewed tree are not followed (they are part of what was reviewed)."""
+    out = []
+    for d in fi.node.decorator_list:
+        target = d.func if isinstance(d, ast.Call) else d
+        t = ctx.repo.resolve_name(fi.module, target.id) if isinstance(target, ast.Name) else None
+        if not isinstance(t, FuncInfo) or t.cls is not None or not _is_new(t):
+            continue
+        dec = t.node
+        if isinstance(d, ast.Call):             # a decorator factory: the decorator is the one function it defines (and returns)
+            inner = [n for n in dec.body if isinstance(n, (ast.FunctionDef, ast.AsyncFunctionDef))]
+            if len(inner) != 1:
+                raise AnalysisError(f"undecided: decorator factory {t.qualname} applied to {fi.qualname}")
+            dec = inner[0]
+        ws = [n for n in dec.body if isinstance(n, (ast.FunctionDef, ast.AsyncFunctionDef))]
+        pos = dec.args.posonlyargs + dec.args.args
+        if len(ws) != 1 or len(pos) != 1:
+            raise AnalysisError(f"undecided: shape of decorator {t.qualname} applied to {fi.qualname}")
+        fparam, w = pos[0].arg, ws[0]
+        wfi = ctx.repo.info(w)
+        inner_calls = [c for c in calls(wfi) if isinstance(c.func, ast.Name) and c.func.id == fparam]
+        others = [n for n in ast.walk(w) if isinstance(n, ast.Name) and n.id == fparam and not any(c.func is n for c in inner_calls)]
+        if len(inner_calls) != 1 or others or is_param(wfi, fparam) or local_defs(wfi, fparam):
+            raise AnalysisError(f"undecided: how the wrapper of decorator {t.qualname} runs {fi.qualname}")
+        c = inner_calls[0]
+        names = [x.arg for x in fi.node.args.posonlyargs + fi.node.args.args]
+        if any(isinstance(x, ast.Starred) for x in c.args) or any(k.arg is None for k in c.keywords) or len(c.args) > len(names):
+            raise AnalysisError(f"undecided: arguments the wrapper of decorator {t.qualname} passes to {fi.qualname}")
+        env = {p_: _expand(ctx, wfi, a, None, at=c) for p_, a in zip(names, c.args)}
+        env.update({k.arg: _expand(ctx, wfi, k.value, None, at=c) for k in c.keywords})
+        out.append((wfi, c, env))
+    return out
+
+
+def _decorator_facts(ctx: Ctx, fi: FuncInfo) -> list:
+    """What the wrappers of fi's new private decorators have established when they run fi's body, in terms of fi's parameters
+    (facts that mention a local of the wrapper are left out: the body cannot name it)."""
+    out = []
+    for wfi, c, env in _decorator_wrappers(ctx, fi):
+        back = {}
+        for p_, a in env.items():
+            a = strip_cast(a)
+            if isinstance(a, ast.Name) and is_param(wfi, a.id) and _still_param(ctx, wfi, a, c) == a.id and a.id not in back:
+                back[a.id] = ast.Name(id=p_, ctx=ast.Load())
+        hidden = ({n.id for n in ast.walk(wfi.node) if isinstance(n, ast.Name) and isinstance(n.ctx, (ast.Store, ast.Del))} | set(wfi.params())) - set(back)
+        for f in _xfacts(ctx, wfi, c, None):
+            used = names_in(f.left) | (names_in(f.right) if f.right is not None else set())
+            if used & hidden:
+                continue
+            sub = lambda e: None if e is None else _expand(ctx, wfi, e, back, at=c, depth=0)  # noqa: E731
+            out.append(Fact(f.op, sub(f.left), sub(f.right), f.pos, f.atom))
+    return out
+
+
 @dataclass
 class _Site:
     fi: FuncInfo                      # function that contains the call textually
@@ -936,6 +1018,8 @@ def _callee(ctx: Ctx, *names: str):
 def _sites(ctx: Ctx, fi: FuncInfo, is_site, helper_of=_helper, env: dict | None = None, outer=(), via=(), depth: int = 3) -> list[_Site]:
     """Call sites (is_site(call)) of a function including those in the helpers it calls, with the facts that dominate them."""
     out = []
+    if not via and not outer and env is None and fi.node.decorator_list:
+        outer = _decorator_facts(ctx, fi)
     for c in calls(fi):
         if is_site(fi, env, c):
             out.append(_Site(fi, c, env, list(outer) + _xfacts(ctx, fi, c, env), list(via)))
@@ -2216,7 +2300,25 @@ def _whitelisted_edge(ctx: Ctx, fi: FuncInfo, env, n, lab) -> bool:
     left = f.left
     if isinstance(left, ast.Name) and _bindings(fi, left.id) == 1:
         left = resolve(fi, left)
-    return norm(_expand(ctx, fi, left, env)) == "cell.message[0]" and _xchain(ctx, fi, f.right, env) == "NO_CRYPTO_PACKETS"
+    return norm(_expand(ctx, fi, left, env)) == "cell.message[0]" and _is_whitelist(ctx, fi, f.right, env)
+
+
+def _is_whitelist(ctx: Ctx, fi: FuncInfo, e: ast.AST | None, env=None) -> bool:
+    """e denotes the plaintext whitelist: NO_CRYPTO_PACKETS itself, a read-only shared constant derived from it
+    (`frozenset(NO_CRYPTO_PACKETS)`), or a collection all of whose members are create / created message ids."""
+    if e is None:
+        return False
+    x = _expand(ctx, fi, e, env)
+    if chain(x) == "NO_CRYPTO_PACKETS":
+        return True
+    elts = _member_elts(ctx, [fi], x)
+    if not elts:
+        return False
+    for el in elts:
+        v = ctx.repo.resolve_const(fi.module, el)
+        if norm(el) not in ("CreatePayload.msg_id", "CreatedPayload.msg_id") and not (isinstance(v, int) and not isinstance(v, bool) and v in (2, 3)):
+            return False
+    return True
 
 
 EXPECTED = {
@@ -2346,6 +2448,135 @@ def _index_walk(fi: FuncInfo, loop: ast.For, base: str | None):
     return None
 
 
+def _while_walk(ctx: Ctx, fi: FuncInfo, loop: ast.While, base: str | None):
+    """(order, element locals) for a hand-written index walk `i = <start>` ... `while i <cmp> <bound>: ... <base>[f(i)] ... i += 1`
+    (the update anywhere in the body, the reads before or after it): 'forward' / 'reversed' when the loop runs len(base) times and
+    the reads visit every element once in that order - decided on exact polynomials in the iteration number and len(base)."""
+    from ..poly import Poly, eval_expr
+    if base is None or _bindings(fi, base) != 1:
+        return None
+    t, neg = strip_cast(loop.test), False
+    while isinstance(t, ast.UnaryOp) and isinstance(t.op, ast.Not):
+        t, neg = strip_cast(t.operand), not neg
+    if not (isinstance(t, ast.Compare) and len(t.ops) == 1):
+        return None
+    in_loop = lambda nm: [d for d in local_defs(fi, nm) if ancestors_include(d[0], loop)]  # noqa: E731
+    l, r, op = strip_cast(t.left), strip_cast(t.comparators[0]), type(t.ops[0])
+    swap = {ast.Lt: ast.Gt, ast.Gt: ast.Lt, ast.LtE: ast.GtE, ast.GtE: ast.LtE, ast.NotEq: ast.NotEq}
+    inv = {ast.Lt: ast.GtE, ast.Gt: ast.LtE, ast.LtE: ast.Gt, ast.GtE: ast.Lt}
+    if op not in swap:
+        return None
+    if isinstance(l, ast.Name) and in_loop(l.id):
+        ivar, bound = l.id, r
+    elif isinstance(r, ast.Name) and in_loop(r.id):
+        ivar, bound, op = r.id, l, swap[op]
+    else:
+        return None
+    if neg:
+        if op not in inv:
+            return None
+        op = inv[op]
+    defs = local_defs(fi, ivar)
+    inner, outer = in_loop(ivar), [d for d in defs if not ancestors_include(d[0], loop)]
+    if is_param(fi, ivar) or len(inner) != 1 or len(outer) != 1 or outer[0][1] is None or outer[0][2] is not None:
+        return None
+    upd = inner[0][0]
+    for a in ancestors(upd):
+        if a is loop:
+            break
+        if isinstance(a, (ast.For, ast.AsyncFor, ast.While)):
+            return None                                          # updated in a nested loop: not once per iteration
+
+    def sym(e):
+        e = strip_cast(e)
+        if isinstance(e, ast.Call) and chain(e.func) == "len" and len(e.args) == 1 and not e.keywords and chain(e.args[0]) == base:
+            return "N"
+        return None
+
+    def poly(e, cur):
+        e = strip_cast(e)
+        if isinstance(e, ast.UnaryOp) and isinstance(e.op, ast.Invert):
+            return -poly(e.operand, cur) - Poly.const(1)
+        if isinstance(e, ast.Name) and e.id != ivar and not is_param(fi, e.id) and _bindings(fi, e.id) == 1 and single_def(fi, e.id) is not None \
+                and single_def(fi, e.id)[1] is None and ivar not in names_in(single_def(fi, e.id)[0]):
+            return poly(single_def(fi, e.id)[0], cur)
+        if isinstance(e, ast.BinOp) and isinstance(e.op, (ast.Add, ast.Sub, ast.Mult)):
+            a, b = poly(e.left, cur), poly(e.right, cur)
+            return a + b if isinstance(e.op, ast.Add) else a - b if isinstance(e.op, ast.Sub) else a * b
+        if isinstance(e, ast.UnaryOp) and isinstance(e.op, ast.USub):
+            return -poly(e.operand, cur)
+        return eval_expr(e, {ivar: cur}, sym)
+
+    cfg = ctx.cfg(fi)
+    head = [n for n in cfg.by_ast.get(id(loop), []) if n.kind == "loop"]
+    un = cfg.nodes_for(upd)
+    tests = [n for n in cfg.nodes_for(t) if n.kind == "cond"]
+    if len(head) != 1 or len(un) != 1 or len(tests) != 1:
+        return None
+    try:
+        i0 = Poly.var("i")
+        if isinstance(upd, ast.AugAssign) and isinstance(upd.op, (ast.Add, ast.Sub)):
+            d = poly(upd.value, i0)
+            step = d if isinstance(upd.op, ast.Add) else -d
+        elif isinstance(upd, (ast.Assign, ast.AnnAssign)) and inner[0][1] is not None and inner[0][2] is None:
+            step = poly(inner[0][1], i0) - i0
+        else:
+            return None
+        if step not in (Poly.const(1), Poly.const(-1)):
+            return None
+        up = step == Poly.const(1)
+        start, stop = poly(outer[0][1], i0), poly(bound, i0)
+        if "i" in {x for k in [*start.t, *stop.t] for x in k}:
+            return None
+        # the test as the exclusive end of the values i takes at the loop head
+        if op is ast.NotEq or (op is ast.Lt and up) or (op is ast.Gt and not up):
+            pass
+        elif op is ast.LtE and up:
+            stop = stop + Poly.const(1)
+        elif op is ast.GtE and not up:
+            stop = stop - Poly.const(1)
+        else:
+            return None
+        count = stop - start if up else start - stop
+        if count != Poly.var("N"):
+            return None                                          # (also makes `!=` safe: the end is hit exactly after len(base) steps)
+        # the initial value reaches the loop, the update runs exactly once in every iteration that comes back to the head
+        if not cfg.must_complete(head[0], cfg.nodes_for(outer[0][0])):
+            return None
+        body = [v for v, lab in tests[0].succ if lab is (not neg)]
+        if head[0] in cfg.reach(body, cut_nodes=un):
+            return None
+        k = Poly.var("k")
+        at_head = start + (k if up else -k)
+        idx, elems = None, set()
+        for n in ast.walk(loop):
+            if isinstance(n, ast.Subscript) and chain(n.value) == base and isinstance(n.ctx, ast.Load) and ivar in names_in(n.slice):
+                rn = cfg.nodes_for(n)
+                before = any(x in cfg.reach(body, cut_nodes=un) for x in rn) or any(x in un for x in rn)
+                after = any(x in cfg.reach([v for v, lab in un[0].succ if lab != "exc"], cut_nodes=head) for x in rn)
+                if before == after or not rn:
+                    return None
+                q = poly(n.slice, at_head if before else at_head + step)
+                if not any("N" in m for m in q.t) and q.subst({"k": Poly.const(0)}).t.get((), 0) < 0:
+                    q = q + Poly.var("N")                          # negative indices count from the end
+                if idx is not None and q != idx:
+                    return None
+                idx = q
+                st = enclosing_stmt(n)
+                if isinstance(st, ast.Assign) and st.value is n and len(st.targets) == 1 and isinstance(st.targets[0], ast.Name) \
+                        and _bindings(fi, st.targets[0].id) == 1:
+                    elems.add(st.targets[0].id)
+    except AnalysisError:
+        return None
+    if idx is None:
+        return None
+    if idx == k:
+        return "forward", elems, ivar
+    if idx == Poly.var("N") - Poly.const(1) - k:
+        return "reversed", elems, ivar
+    return None
+
+
 def _iter_order(fi: FuncInfo, it: ast.AST, base: str | None, depth: int = 5) -> str | None:
     """'forward' / 'reversed': order in which iterating `it` visits the elements of sequence `base` (every element once);
     None when the expression is not understood."""
@@ -2419,6 +2650,62 @@ def _contradictory(facts) -> bool:
         if f.op in ("eq", "is") and isinstance(l, ast.Constant) and isinstance(r, ast.Constant) and (l.value == r.value) is not f.pos:
             return True
     return False
+
+
+def _layer_loop_owner(ctx: Ctx, fi: FuncInfo, name: str, prim: str, depth: int = 2):
+    """(function, cell name, direction name, hops name) of the function that holds the hop loop of encrypt_cell / decrypt_cell: the
+    method itself, or - when the method became a thin delegation - the NEW function (same file, another module, a base class) it hands
+    its own (cell, direction, hops) to.  The delegation is checked here: every way through the method that is not taken for a cell
+    carrying the plaintext flag completes the call, and nothing around the call catches what it raises."""
+    cell_n, dir_n = fi.params()[1], fi.params()[2]
+    hops_n = fi.node.args.vararg.arg if fi.node.args.vararg else (fi.params()[3] if len(fi.params()) == 4 else None)
+    while depth > 0:
+        depth -= 1
+        if any((_method_call(ctx, fi, c) or (None, None))[1] == prim for c in calls(fi)):
+            break
+        cands = [(c, t) for c in calls(fi) for t in [_new_helper(ctx, fi, c)] if t is not None and t is not fi]
+        if len(cands) != 1 or hops_n is None:
+            break
+        c, t = cands[0]
+        a = t.node.args
+        if a.kwarg or a.kwonlyargs or any(k.arg is None for k in c.keywords):
+            break
+        params = _positional_params(t)
+        got = {}
+        for i, x in enumerate(c.args):
+            if isinstance(x, ast.Starred):
+                if a.vararg is None or i != len(params) or i != len(c.args) - 1:
+                    got = None
+                    break
+                got[a.vararg.arg] = x.value
+            elif i < len(params):
+                got[params[i]] = x
+            else:
+                got = None
+                break
+        if got is None:
+            break
+        for k in c.keywords:
+            got[k.arg] = k.value
+        back = {}
+        for p_, x in got.items():
+            nm = _still_param(ctx, fi, x, c)
+            if nm is not None:
+                back[nm] = p_
+        if not {cell_n, dir_n, hops_n} <= set(back):
+            break
+        if any(isinstance(y, ast.Try) and y.handlers for y in ancestors(c) if ancestors_include(y, fi.node)):
+            raise AnalysisError(f"undecided: {fi.qualname} delegates its hop loop inside a try statement")
+        cfg = ctx.cfg(fi)
+        cn = cfg.nodes_for(c)
+        envc = None if cell_n == "cell" else {cell_n: ast.Name(id="cell", ctx=ast.Load())}
+        r = cfg.reach(cut_out_normal=cn, cut_edge=lambda u, v, lab: u.kind == "cond" and lab in (True, False) and _plaintext_edge(ctx, fi, envc, u, lab))
+        rule = "drop-on-failure" if name == "decrypt_cell" else "crypto-before-send"
+        ctx.check(cfg.exit not in r, rule, fi, c, f"{name}: every non-plaintext cell goes through {t.name}",
+                  f"{fi.qualname} can return without having handed the cell to {t.name} although the cell does not carry the plaintext flag: "
+                  "its layers are not " + ("removed and authenticated, yet the cell is accepted" if name == "decrypt_cell" else "added, yet the cell is sent"))
+        fi, cell_n, dir_n, hops_n = t, back[cell_n], back[dir_n], back[hops_n]
+    return fi, cell_n, dir_n, hops_n
 
 
 def rule_duality(ctx: Ctx) -> None:
@@ -2558,27 +2845,69 @@ def rule_duality(ctx: Ctx) -> None:
 
     # encrypt_cell / decrypt_cell loop shape
     for name, prim, order in (("encrypt_cell", "encrypt_str", "reversed"), ("decrypt_cell", "decrypt_str", "forward")):
-        fi = repo.method("PythonCryptoEndpoint", name, CR)
+        fi0 = repo.method("PythonCryptoEndpoint", name, CR)
+        if len(fi0.params()) < 3:
+            raise AnalysisError(f"anchor-lost: parameters (cell, direction, hops) of {name}")
+        fi, cell_n, dir_n, hops_param = _layer_loop_owner(ctx, fi0, name, prim)
+        env_c = None if cell_n == "cell" else {cell_n: ast.Name(id="cell", ctx=ast.Load())}
         cfg = ctx.cfg(fi)
-        loops = [l for l in walk_no_nested(fi.node) if isinstance(l, ast.For)]
-        ctx.anchor(loops, f"hop loop in {name}")
-        lp = loops[0]
-        hops_param = fi.node.args.vararg.arg if fi.node.args.vararg else (fi.params()[3] if len(fi.params()) == 4 else None)
-        got = _iter_order(fi, lp.iter, hops_param)
-        elem_vars = set()
-        if got is None:
-            iw = _index_walk(fi, lp, hops_param)
-            if iw is not None:
-                got, elem_vars = iw
-        if got is None:
-            raise AnalysisError(f"undecided: order in which {name} walks the hops (`{norm(lp.iter)}`)")
-        ctx.check(got == order, "direction-duality", fi, lp, f"{name} iterates hops {order}",
-                  f"{name} must iterate the hops {'last-to-first (first hop outermost)' if order == 'reversed' else 'first-to-last'}")
         mcalls = {id(c): _method_call(ctx, fi, c) for c in calls(fi)}       # however the method call is spelled (getattr, methodcaller, ...)
         prims = [c for c in calls(fi) if mcalls[id(c)] is not None and mcalls[id(c)][1] == prim]
-        ctx.anchor(prims, f"{prim} in {name}")
-        loop_vars = (names_in(lp.target) - {lp.target.id} if elem_vars and isinstance(lp.target, ast.Name) else names_in(lp.target)) | elem_vars
+        all_loops = [l for l in walk_no_nested(fi.node) if isinstance(l, (ast.For, ast.While))]
+        # the hop loop: the innermost loop around the primitive (a `for` over the hops, or a `while` that walks them by index)
+        loops = [l for l in all_loops if any(ancestors_include(c, l) for c in prims)
+                 and not any(l2 is not l and ancestors_include(l2, l) and any(ancestors_include(c, l2) for c in prims) for l2 in all_loops)]
+        loops = loops or [l for l in all_loops if isinstance(l, ast.For)]
+        ctx.anchor(loops, f"hop loop in {name}")
+        lp = loops[0]
+        elem_vars, ivar = set(), None
         loop_heads = [n for n in cfg.by_ast.get(id(lp), []) if n.kind == "loop"]
+        if isinstance(lp, ast.While):
+            ww = _while_walk(ctx, fi, lp, hops_param)
+            if ww is None:
+                raise AnalysisError(f"undecided: order in which {name} walks the hops (`while {norm(lp.test)}`)")
+            got, elem_vars, ivar = ww
+            loop_vars = set(elem_vars)
+            wt, wneg = strip_cast(lp.test), False
+            while isinstance(wt, ast.UnaryOp) and isinstance(wt.op, ast.Not):
+                wt, wneg = strip_cast(wt.operand), not wneg
+            body_starts = [v for n in cfg.nodes_for(wt) if n.kind == "cond" for v, lab in n.succ if lab is (not wneg)]
+        else:
+            got = _iter_order(fi, lp.iter, hops_param)
+            if got is None:
+                iw = _index_walk(fi, lp, hops_param)
+                if iw is not None:
+                    got, elem_vars = iw
+                    ivar = lp.target.id
+            if got is None:
+                raise AnalysisError(f"undecided: order in which {name} walks the hops (`{norm(lp.iter)}`)")
+            loop_vars = (names_in(lp.target) - {lp.target.id} if ivar is not None and isinstance(lp.target, ast.Name) else names_in(lp.target)) | elem_vars
+            body_starts = [v for head_ in loop_heads for v, lab in head_.succ if lab is True]
+        ctx.check(got == order, "direction-duality", fi, lp, f"{name} iterates hops {order}",
+                  f"{name} must iterate the hops {'last-to-first (first hop outermost)' if order == 'reversed' else 'first-to-last'}")
+        ctx.anchor(prims, f"{prim} in {name}")
+
+        def elem_keys(e: ast.AST, at: ast.AST, depth: int = 3) -> bool:
+            """e (read at `at` inside the hop loop) is the `.keys` of the hop of this iteration: `<loop variable>.keys`,
+            `<hops>[<checked index>].keys`, or a local bound once, earlier in the same iteration, to one of them."""
+            e = strip_cast(e)
+            if isinstance(e, ast.Name) and depth > 0 and not is_param(fi, e.id) and _bindings(fi, e.id) == 1:
+                ds = [d for d in local_defs(fi, e.id)]
+                if len(ds) != 1 or ds[0][1] is None or ds[0][2] is not None or not isinstance(ds[0][0], (ast.Assign, ast.AnnAssign)) \
+                        or not ancestors_include(ds[0][0], lp):
+                    return False
+                dn, un_ = cfg.nodes_for(ds[0][0]), cfg.nodes_for(at)
+                before_def = cfg.reach(body_starts, cut_out_normal=dn)
+                if not dn or not un_ or any(u in before_def and u not in dn for u in un_):
+                    return False
+                return elem_keys(ds[0][1], ds[0][0], depth - 1)
+            if not (isinstance(e, ast.Attribute) and e.attr == "keys"):
+                return False
+            x = strip_cast(e.value)
+            if isinstance(x, ast.Name):
+                return x.id in loop_vars
+            return ivar is not None and isinstance(x, ast.Subscript) and chain(x.value) == hops_param and ivar in names_in(x.slice)
+
         for c in prims:
             st = enclosing_stmt(c)
             r_, _, margs = mcalls[id(c)]
@@ -2586,17 +2915,17 @@ def rule_duality(ctx: Ctx) -> None:
             rc_ = chain(recv) or ""
             # the result replaces cell.message: stored directly, or held in a local (bound by this statement only) that is stored
             # into cell.message on every normal way from the call to the next iteration / the end of the function
-            stored = isinstance(st, ast.Assign) and len(st.targets) == 1 and st.value is c and chain(st.targets[0]) == "cell.message"
+            stored = isinstance(st, ast.Assign) and len(st.targets) == 1 and st.value is c and chain(st.targets[0]) == f"{cell_n}.message"
             if not stored and isinstance(st, (ast.Assign, ast.AnnAssign)) and st.value is c:
                 tg = st.targets[0] if isinstance(st, ast.Assign) and len(st.targets) == 1 else getattr(st, "target", None)
                 if isinstance(tg, ast.Name) and _bindings(fi, tg.id) == 1:
                     puts = [w for w in walk_no_nested(fi.node) if isinstance(w, ast.Assign) and len(w.targets) == 1
-                            and chain(w.targets[0]) == "cell.message" and isinstance(strip_cast(w.value), ast.Name) and strip_cast(w.value).id == tg.id]
+                            and chain(w.targets[0]) == f"{cell_n}.message" and isinstance(strip_cast(w.value), ast.Name) and strip_cast(w.value).id == tg.id]
                     pn = [g for w in puts for g in cfg.nodes_for(w)]
                     stored = bool(pn) and all(cfg.always_followed_by(g, pn, exits=[cfg.exit, *loop_heads]) for g in cfg.nodes_for(st))
             # the receiver is <loop variable>.keys (read directly or once into a local)
-            ok = stored and len(margs) == 2 and norm(_expand(ctx, fi, margs[0], at=c)) == "cell.message" \
-                and norm(_expand(ctx, fi, margs[1], at=c)) == fi.params()[2] and rc_.endswith(".keys") and rc_.count(".") == 1 and rc_.split(".")[0] in loop_vars \
+            ok = stored and len(margs) == 2 and norm(_expand(ctx, fi, margs[0], env_c, at=c)) == "cell.message" \
+                and norm(_expand(ctx, fi, margs[1], at=c)) == dir_n and elem_keys(recv, c) \
                 and ancestors_include(c, lp)
             ctx.check(ok, "direction-duality", fi, st, f"{name}: cell.message = hop.keys.{prim}(cell.message, direction)",
                       f"{name} does not replace the message by the {prim} of the message under the given direction")
@@ -2617,7 +2946,7 @@ def rule_duality(ctx: Ctx) -> None:
             f = fact_of(*parts[0])
             if f.op == "is" and isinstance(f.left, ast.Constant) and f.left.value is None and f.right is not None:
                 f = Fact("is", f.right, f.left, f.pos, f.atom)       # `None is x`
-            if not (_xchain(ctx, fi, f.left, at=a) or "").endswith(".keys"):
+            if not ((_xchain(ctx, fi, f.left, at=a) or "").endswith(".keys") or (ancestors_include(a, lp) and elem_keys(_expand(ctx, fi, f.left, at=a), a))):
                 continue
             nokeys_pol = None                               # the out-edge of the test on which the keys are missing
             if f.op == "truthy":
@@ -2634,12 +2963,11 @@ def rule_duality(ctx: Ctx) -> None:
         # no layer is skipped: an iteration of the hop loop that does not raise has applied the primitive - it cannot go on to the next
         # hop, leave the loop (break: all remaining layers skipped) or return before (except for a cell carrying the plaintext flag)
         pn = {g for c in prims for g in cfg.nodes_for(c)}
-        inside = lambda x: x.ast is not None and (x.ast is lp or ancestors_include(x.ast, lp)) and not (x.kind == "stmt" and x.ast is lp.iter)  # noqa: E731
+        inside = lambda x: x.ast is not None and (x.ast is lp or ancestors_include(x.ast, lp)) and not (x.kind == "stmt" and x.ast is getattr(lp, "iter", None))  # noqa: E731
         for head_ in loop_heads:
-            body = [v for v, lab in head_.succ if lab is True]
-            r = cfg.reach(body, cut_out_normal=pn,
+            r = cfg.reach(body_starts, cut_out_normal=pn,
                           cut_edge=lambda u, v, lab: (lab == "exc" and not inside(v)) or
-                          (u.kind == "cond" and lab in (True, False) and _plaintext_edge(ctx, fi, None, u, lab)))
+                          (u.kind == "cond" and lab in (True, False) and _plaintext_edge(ctx, fi, env_c, u, lab)))
             skipped = sorted({x for x in r if x is head_ or not inside(x)}, key=lambda x: x.id)
             how = "goes on to the next hop" if head_ in skipped else "leaves the loop / returns"
             rule = "drop-on-failure" if name == "decrypt_cell" else "crypto-before-send"
@@ -2754,7 +3082,7 @@ def _whitelist_flag(ctx: Ctx, fi: FuncInfo, v: ast.AST, at: ast.AST) -> bool:
             envs.append(_bind(ctx, c_fi, c, fi, None))
     for env in envs:
         implied = [fact_of(a, p) for a, p in _derive(None, _expand(ctx, fi, v, env, at=at), True)]
-        if not any(f.op == "in" and f.pos and norm(f.left) == "payload.msg_id" and chain(f.right) == "NO_CRYPTO_PACKETS" for f in implied):
+        if not any(f.op == "in" and f.pos and norm(f.left) == "payload.msg_id" and _is_whitelist(ctx, fi, f.right) for f in implied):
             return False
     return bool(envs)
 
@@ -3122,7 +3450,69 @@ def _circuit_types(ctx: Ctx) -> dict:
     return out
 
 
-def _not_e2e(ctx: Ctx, facts) -> bool:
+def _never_mutated(ctx: Ctx, name: str) -> bool:
+    """No module of the repository changes a shared constant called `name` in place or re-binds it: no `name.append(..)` /
+    `X.name.add(..)`, no store / delete / augmented assignment through it, no `global name`, one binding statement only."""
+    memo = ctx.__dict__.setdefault("_c04_never_mutated", {})
+    if name in memo:
+        return memo[name]
+    ok, binds = True, 0
+    for m in ctx.repo.modules.values():
+        for n in ast.walk(m.tree):
+            if isinstance(n, ast.Global) and name in n.names:
+                ok = False
+            elif isinstance(n, (ast.Name, ast.Attribute)) and (n.id if isinstance(n, ast.Name) else n.attr) == name:
+                p_ = parent_of(n)
+                if isinstance(n.ctx, ast.Del):
+                    ok = False
+                elif isinstance(n.ctx, ast.Store):
+                    binds += 1
+                    if isinstance(p_, ast.AugAssign):
+                        ok = False
+                elif isinstance(p_, ast.Attribute) and p_.value is n and isinstance(parent_of(p_), ast.Call) and parent_of(p_).func is p_ \
+                        and p_.attr in _MUTATORS | {"sort", "reverse", "clear", "discard", "__setitem__", "__delitem__"}:
+                    ok = False
+                elif isinstance(p_, ast.Subscript) and p_.value is n and isinstance(p_.ctx, (ast.Store, ast.Del)):
+                    ok = False
+    memo[name] = ok and binds == 1
+    return memo[name]
+
+
+def _member_elts(ctx: Ctx, fis, e: ast.AST | None, depth: int = 4):
+    """Elements of the collection a membership test reads: a tuple / list / set display, the keys of a dict display, such a
+    display wrapped in frozenset()/set()/tuple()/list(), a union (`a | b`, {*a, *b}, chain(a, b)) of such collections, or a
+    read-only module / class-level constant (of the module of one of the functions `fis`) bound to one.  None when unknown."""
+    if e is None or depth <= 0:
+        return None
+    e = strip_cast(e)
+    if isinstance(e, (ast.Name, ast.Attribute)):
+        for fi in fis:
+            if fi is None:
+                continue
+            v = _shared_const(ctx, fi, e)
+            if v is not None and v is not e:
+                return _member_elts(ctx, fis, v, depth - 1) if _never_mutated(ctx, e.id if isinstance(e, ast.Name) else e.attr) else None
+        return None
+    if isinstance(e, ast.Call) and chain(e.func) in ("frozenset", "set", "tuple", "list", "sorted") and len(e.args) == 1 and not e.keywords \
+            and not isinstance(e.args[0], ast.Starred):
+        return _member_elts(ctx, fis, e.args[0], depth - 1)
+    if isinstance(e, ast.Dict):
+        return list(e.keys) if e.keys and all(k is not None for k in e.keys) else None
+    if isinstance(e, (ast.Tuple, ast.List, ast.Set)) and not any(isinstance(x, ast.Starred) for x in e.elts):
+        return list(e.elts)
+    parts = _union_parts(e)
+    if parts:
+        out = []
+        for p_ in parts:
+            sub = _member_elts(ctx, fis, p_, depth - 1)
+            if sub is None:
+                return None
+            out += sub
+        return out
+    return None
+
+
+def _not_e2e(ctx: Ctx, facts, fis=()) -> bool:
     """The facts establish that circuit.ctype is neither RP_DOWNLOADER nor RP_SEEDER (exclusion of both, or membership in /
     equality with other circuit types)."""
     types = _circuit_types(ctx)
@@ -3131,7 +3521,7 @@ def _not_e2e(ctx: Ctx, facts) -> bool:
         if norm(f.left) != "circuit.ctype" or f.right is None:
             continue
         if f.op == "in":
-            elts = _literal_elts(None, f.right)
+            elts = _member_elts(ctx, fis, f.right)
             names = {norm(x) for x in elts} if elts is not None else None
             if names is None or not names <= set(types):
                 continue
@@ -3157,7 +3547,7 @@ def rule_e2e_delivery(ctx: Ctx) -> None:
     ctx.anchor(sites, "control delivery in on_data")
     for s in sites:
         seen = next((norm(f.left) for f in s.facts if f.op == "truthy" and not f.pos and not isinstance(f.left, ast.Call)), None)
-        ctx.check(_not_e2e(ctx, s.facts), "plaintext-whitelist", s.fi, s.call,
+        ctx.check(_not_e2e(ctx, s.facts, [s.fi, od, *[g for g, _ in s.via]]), "plaintext-whitelist", s.fi, s.call,
                   "IPv8-shaped data is interpreted as control traffic only on circuits that are neither RP_DOWNLOADER nor RP_SEEDER",
                   f"on_data decides 'end-to-end payload' by `{seen}` instead of circuit.ctype in [RP_DOWNLOADER, RP_SEEDER]: on one side of an e2e circuit, payload that "
                   "merely looks like IPv8 is dropped, misrouted or executed as a tunnel control message instead of being delivered byte-for-byte")
@@ -3238,6 +3628,19 @@ def rule_key_selection(ctx: Ctx) -> None:
                                   good_edge=lambda f, env, cfg, cn, lab, key=key: _absent_from_circuits_edge(ctx, f, env, cn, lab, key))
                 st = enclosing_stmt(node)
                 ok = guard.holds_at(fi, st)
+                if not ok:
+                    # the function carries a new private decorator whose wrapper establishes the fact before it runs the body
+                    base = _expand(ctx, fi, slot, None, at=node)
+                    stable = all((is_param(fi, nm) and _bindings(fi, nm) == 1) or nm == "self" for nm in names_in(base))
+                    for wfi, wc, wenv in (_decorator_wrappers(ctx, fi) if stable else []):
+                        wkey_expr = _expand(ctx, fi, slot, wenv, at=node)
+                        if not all(is_param(wfi, nm) and _bindings(wfi, nm) == 1 for nm in names_in(wkey_expr)):
+                            continue
+                        wkey = norm(wkey_expr)
+                        wguard = _MustPass(ctx, subject=names_in(wkey_expr),
+                                           good_edge=lambda f, env, cfg, cn, lab, key=wkey: _absent_from_circuits_edge(ctx, f, env, cn, lab, key))
+                        if wguard.holds_at(wfi, wc):
+                            ok = True
                 if not ok and _is_new(fi):
                     # the store lives in a helper of a later change: the id is established to be free before the helper is entered
                     sites = [(c_fi, c) for _, c_fi, c in _callers(ctx, fi.name)]
@@ -3316,6 +3719,10 @@ def _hands_over(ctx: Ctx, root: FuncInfo, s: _Site, pairs) -> bool:
     return True
 
 
+def _is_generator(t: FuncInfo) -> bool:
+    return any(isinstance(n, (ast.Yield, ast.YieldFrom)) for n in walk_no_nested(t.node))
+
+
 class _HandOver:
     """
     Follows the VALUES of the two parameters (address, packet) of TunnelEndpoint.send along every path - through copies, tuples,
@@ -3343,27 +3750,76 @@ class _HandOver:
             return ("tuple", tuple(self.aeval(x, env) for x in e.elts))
         return None
 
-    def aiter(self, e, env) -> tuple:
+    def aiter(self, e, env, fi: FuncInfo | None = None, depth: int = 2) -> tuple:
         """The values the first iterations over expression e bind, as far as they are known: the elements of a display / known tuple,
-        of chain(<known>, ...) up to its first unknown operand (a lazy iterable yields its first operand's elements first)."""
+        of chain(<known>, ...) up to its first unknown operand (a lazy iterable yields its first operand's elements first), of a
+        new generator helper up to its first yield that is not reached in a straight line from its entry."""
         e = strip_cast(e)
         if isinstance(e, ast.Call) and not e.keywords:
             c = chain(e.func)
             if c in ("iter", "list", "tuple") and len(e.args) == 1 and not isinstance(e.args[0], ast.Starred):
-                return self.aiter(e.args[0], env)
+                return self.aiter(e.args[0], env, fi, depth)
             if c in ("chain", "itertools.chain"):
                 out = ()
                 for a in e.args:
                     if isinstance(a, ast.Starred):
                         break
-                    k = self.aiter(a, env)
+                    k = self.aiter(a, env, fi, depth)
                     out += k
                     if not self.exact(a, env):
                         break
                 return out
+        if isinstance(e, ast.Call) and fi is not None and depth > 0:
+            t = _new_helper(self.ctx, fi, e)
+            if t is not None:
+                return self.produced(t, e, env, depth - 1)
+            return ()
+        if isinstance(e, ast.Call):
             return ()
         v = self.aeval(e, env)
         return tuple(v[1]) if isinstance(v, tuple) and v[0] == "tuple" else ()
+
+    def produced(self, t: FuncInfo, call: ast.Call, env, depth: int) -> tuple:
+        """Known leading elements of the iterable a call of the new helper t gives: for a generator the values of the yields reached
+        in a straight line from its entry (a generator runs lazily, so what follows them is simply unknown - the loop that consumes
+        it treats the later elements as unknown values); for a plain function whose body is one `return <iterable>`, those of the
+        returned iterable.  A helper that itself touches the queue / send_data before its first known yield gives nothing known."""
+        inner = self.bind(t.node, call, env, skip_self=len(_positional_params(t)) < len(t.node.args.posonlyargs + t.node.args.args))
+        if inner is None or t.is_async:
+            return ()
+        henv = {"self": None, **inner}
+        body = [st for st in t.node.body if not (isinstance(st, ast.Expr) and isinstance(st.value, ast.Constant))]
+        is_gen = _is_generator(t)
+        if not is_gen:
+            if len(body) == 1 and isinstance(body[0], ast.Return) and body[0].value is not None:
+                return self.aiter(body[0].value, henv, t, depth)
+            return ()
+        out = ()
+        for st in body:
+            if isinstance(st, ast.Expr) and isinstance(st.value, ast.Yield):
+                if st.value.value is None or any(isinstance(x, ast.Call) for x in ast.walk(st.value.value)):
+                    break
+                out += (self.aeval(st.value.value, henv),)
+            elif isinstance(st, ast.Expr) and isinstance(st.value, ast.YieldFrom):
+                src = st.value.value
+                if any(isinstance(x, ast.Call) and _new_helper(self.ctx, t, x) is None and chain(x.func) not in ("iter", "list", "tuple", "chain", "itertools.chain")
+                       for x in ast.walk(src)):
+                    break
+                out += self.aiter(src, henv, t, depth)
+                if not self.exact(src, henv):
+                    break
+            elif isinstance(st, (ast.Assign, ast.AnnAssign)) and st.value is not None and not any(isinstance(x, (ast.Call, ast.Yield, ast.YieldFrom, ast.Await))
+                                                                                                    for x in ast.walk(st)):
+                v = self.aeval(st.value, henv)
+                for tg in (st.targets if isinstance(st, ast.Assign) else [st.target]):
+                    for x in ast.walk(tg):
+                        if isinstance(x, ast.Name):
+                            henv[x.id] = None
+                    if isinstance(tg, ast.Name):
+                        henv[tg.id] = v
+            else:
+                break
+        return out
 
     def exact(self, e, env) -> bool:
         """aiter(e) lists ALL elements of e."""
@@ -3431,7 +3887,11 @@ class _HandOver:
                 inner = self.bind(t.node, call, env, skip_self=len(_positional_params(t)) < len(t.node.args.posonlyargs + t.node.args.args))
                 if inner is None:
                     raise AnalysisError(f"undecided: arguments of helper {t.qualname}")
-                return sorted(self.walk(t.node, t, {"self": None, **inner}, depth - 1))
+                eff = sorted(self.walk(t.node, t, {"self": None, **inner}, depth - 1))
+                if _is_generator(t) and any(h or s_ for h, s_ in eff):
+                    # the body of a generator runs while it is consumed, not where it is called
+                    raise AnalysisError(f"undecided: generator {t.qualname} queues / tunnels packets itself")
+                return eff
         return None
 
     def walk(self, fn, fi: FuncInfo | None, env0: dict, depth: int, outer_closures=None) -> set:
@@ -3491,14 +3951,14 @@ class _HandOver:
                     if isinstance(x, ast.NamedExpr):
                         env[x.target.id] = self.aeval(x.value, env)
                 if isinstance(parent_of(a), (ast.For, ast.AsyncFor)) and parent_of(a).iter is a:
-                    env[f"<iter {id(parent_of(a))}>"] = (self.aiter(a, env), 0)       # the iterable of a `for` is evaluated here, once
+                    env[f"<iter {id(parent_of(a))}>"] = (self.aiter(a, env, fi), 0)       # the iterable of a `for` is evaluated here, once
             for v, lab in node.succ:
                 env2 = env
                 if node.kind == "loop" and isinstance(a, (ast.For, ast.AsyncFor)) and lab in (True, False):
                     # the iterable was evaluated when the loop was entered: its known leading elements are remembered (with the
                     # number of iterations begun so far) under a key of the loop; the loop cannot end before they are used up
                     key = f"<iter {id(a)}>"
-                    known, i = env.get(key) or (self.aiter(a.iter, env), 0)
+                    known, i = env.get(key) or (self.aiter(a.iter, env, fi), 0)
                     env2 = dict(env)
                     if lab is False:
                         if i < len(known):
@@ -3648,6 +4108,86 @@ def rule_fresh_ephemerals(ctx: Ctx) -> None:
               "circuit authenticates on the other")
 
 
+def _proper_part(e: ast.AST | None) -> bool:
+    """e reads only a part of a bytes value: a slice with at least one bound (`x[:32]`, `x[32:]`; `r[0]` picks an element of a
+    tuple result - a single byte could not be fed to the key derivation)."""
+    for n in ast.walk(e) if e is not None else ():
+        if isinstance(n, ast.Subscript) and isinstance(n.slice, ast.Slice) and (n.slice.lower is not None or n.slice.upper is not None or n.slice.step is not None):
+            return True
+    return False
+
+
+def _kdf_inputs(ctx: Ctx, fi: FuncInfo, env: dict | None = None, via=(), depth: int = 2) -> list:
+    """[(function, call of the key-derivation function, its input in fi's caller's terms)] for the calls of the imported
+    ipv8_rust_tunnels.generate_session_keys reached from fi (directly or through new helpers)."""
+    out = []
+    for c in calls(fi):
+        f = strip_cast(c.func)
+        nm = f.id if isinstance(f, ast.Name) else f.attr if isinstance(f, ast.Attribute) else None
+        imp = fi.module.imports.get(f.id) if isinstance(f, ast.Name) else None
+        is_kdf = (imp is not None and imp[0] == "ipv8_rust_tunnels" and imp[1] == "generate_session_keys") or \
+            (isinstance(f, ast.Attribute) and nm == "generate_session_keys" and chain(f.value) == "ipv8_rust_tunnels")
+        if is_kdf:
+            a = arg(c, 0, "shared_secret") if not any(isinstance(x, ast.Starred) for x in c.args) else None
+            out.append((fi, c, a, env))
+            continue
+        t = _new_helper(ctx, fi, c)
+        if t is not None and depth > 0 and t is not fi and all(t is not g for g in via):
+            out.extend(_kdf_inputs(ctx, t, _bind(ctx, fi, c, t, env), (*via, fi), depth - 1))
+    return out
+
+
+def rule_whole_secret(ctx: Ctx) -> None:
+    """
+    A hop's layer can be removed only by the hop the originator chose because the session keys are derived from the WHOLE handshake
+    secret: the ephemeral-ephemeral Diffie-Hellman half (which anybody who answers with a fresh key can compute - it is also all that keys
+    the created/extended authenticator) followed by the half computed with the hop's long-term private key.  If the key derivation is fed
+    only a part of the secret, or the secret is built from keys generated in the call alone, whoever answers a create / extend (a relay
+    answering an extend itself) obtains that hop's session keys: it removes a layer it must not be able to remove and reads / forges cells
+    in transit.  Both ends run the same code, so honest handshakes keep working.
+    """
+    _CURRENT[0] = ctx
+    repo = ctx.repo
+    gk = repo.method("TunnelCrypto", "generate_session_keys", CR)
+    if not gk.params():
+        raise AnalysisError("anchor-lost: parameter shared_secret of TunnelCrypto.generate_session_keys")
+    secret = gk.params()[-1]
+    sites = ctx.anchor(_kdf_inputs(ctx, gk), "ipv8_rust_tunnels.generate_session_keys reached from TunnelCrypto.generate_session_keys")
+    for fi, c, a, env in sites:
+        x = _expand(ctx, fi, a, env, at=c) if a is not None else None
+        if env is None:
+            whole = a is not None and _still_param(ctx, gk, a, c) == secret
+        else:
+            p_ = _still_param(ctx, fi, a, c) if a is not None else None
+            bound = env.get(p_) if p_ else None
+            whole = isinstance(bound, ast.Name) and bound.id == secret and _bindings(gk, secret) == 1
+        if not whole and not _proper_part(x):
+            raise AnalysisError(f"undecided: what {fi.qualname} feeds to the key derivation (`{norm(a) if a is not None else None}`)")
+        ctx.check(whole, "whole-secret-keys", fi, c, "session keys are derived from the whole shared secret",
+                  f"{gk.qualname} derives the session keys from a part of the handshake secret only (`{norm(x) if x is not None else None}`): the half "
+                  "computed with the hop's long-term key is no longer mixed in, so anybody who answers the create / extend with a fresh key "
+                  "(a relay answering an extend itself) obtains the hop's session keys, removes its layer and reads or forges the cells in transit")
+    # the callers hand over the secret the handshake produced, not a part of it
+    n = 0
+    for m, c_fi, c in _callers(ctx, "generate_session_keys"):
+        if c_fi is None or c_fi is gk or c_fi in [g for g, _, _, _ in sites] or not isinstance(c.func, ast.Attribute) or not m.relpath.startswith("ipv8/messaging/anonymization/"):
+            continue
+        n += 1
+        a = arg(c, 0, "shared_secret")
+        x = _expand(ctx, c_fi, a, None, at=c) if a is not None else None
+        ctx.check(x is not None and not _proper_part(x), "whole-secret-keys", c_fi, c, f"{c_fi.name}: the whole handshake secret is expanded into session keys",
+                  f"{c_fi.qualname} expands only a part of the handshake secret (`{norm(x) if x is not None else None}`) into session keys: the half bound to "
+                  "the hop's long-term key is dropped, so the party answering the handshake need not own that key to obtain the layer's keys")
+    ctx.floor("whole-secret-keys.callers", n, 1)
+    # the responder's secret contains a Diffie-Hellman result computed with a key that was NOT generated in the call (its identity key)
+    ss = repo.method("TunnelCrypto", "generate_diffie_shared_secret", CR)
+    dh = ctx.anchor([c for c in calls(ss) if call_name(c) == "diffie_hellman" and isinstance(c.func, ast.Attribute)], "diffie_hellman in generate_diffie_shared_secret")
+    ctx.check(len(dh) >= 2 and any(not _fresh_key(ctx, ss, c.func.value, c) for c in dh), "whole-secret-keys", ss, dh[0],
+              "generate_diffie_shared_secret mixes in the long-term key of the hop",
+              "generate_diffie_shared_secret computes the shared secret from keys generated in the call alone: the session keys are no longer "
+              "bound to the identity of the hop the originator selected")
+
+
 def rule_single_entry(ctx: Ctx) -> None:
     """
     Every cell reaches the community through the crypto endpoint, which removes / authenticates the layers: the PythonCryptoEndpoint is
@@ -3756,6 +4296,7 @@ def run(ctx: Ctx) -> None:
     rule_payload_conservation(ctx)
     rule_own_circuit_sender(ctx)
     rule_fresh_ephemerals(ctx)
+    rule_whole_secret(ctx)
     rule_single_entry(ctx)
     rule_per_circuit_state(ctx)
     _refs_understood(ctx)
@@ -3838,6 +4379,10 @@ WITNESSES = [
      "new": "        if circuit and origin and sock_addr[0] == circuit.hop.address[0]:"},
     {"name": "responder reuses a long-lived key as ephemeral", "file": CR, "rule": "fresh-ephemeral-keys",
      "old": "        tmp_key = OpenSSLSK.generate(\"curve25519\")", "new": "        tmp_key = self.key"},
+    {"name": "session keys expanded from the ephemeral half of the secret only", "file": CR, "rule": "whole-secret-keys",
+     "old": "        return _generate_session_keys(shared_secret)", "new": "        return _generate_session_keys(shared_secret[:32])"},
+    {"name": "responder's secret no longer bound to its identity key", "file": CR, "rule": "whole-secret-keys",
+     "old": "                         key.diffie_hellman(dh_received))", "new": "                         tmp_key.diffie_hellman(dh_received))"},
     {"name": "crypto endpoint guards one interface only", "file": TC, "rule": "single-entry",
      "old": "CryptoEndpoint) else PythonCryptoEndpoint(self.endpoint)", "new": "CryptoEndpoint) else PythonCryptoEndpoint(ipv4_endpoint)"},
     {"name": "short message ends the layer loop", "file": CR, "rule": "drop-on-failure",
